@@ -42,7 +42,7 @@ class Sym:
                     return "static:%s" % op["static"]
                 txt = op.get("txt", "?")
                 if "::promoted[" in txt:
-                    pf = self.prog.promoted.get(self.fn.crate + "::" + txt)
+                    pf = self.prog.promoted.get(self.fn.name + txt[txt.rindex("::promoted["):])
                     if pf is not None and depth < 20:
                         ps = Sym(self.prog, pf)
                         return ps.local(0, depth + 1)
